@@ -257,16 +257,72 @@ theorem n34_lanes (t0 t1 t2 t3 t4 t5 t6 t7 : Nat)
   rw [e3]
   unfold n4
   rw [e0f, L]
-  simp only [List.map, lanes]
-  omega
+  have hm : ∀ a c : Nat, a ≤ 8 → (a + 16 * c) % 16 = a := by intro a c h; omega
+  have g0 := hm (t0 % 16 + t0 / 16) (t0 / 16 + t1 % 16) (by omega)
+  have g1 := hm (t1 % 16 + t1 / 16) (t1 / 16 + t2 % 16) (by omega)
+  have g2 := hm (t2 % 16 + t2 / 16) (t2 / 16 + t3 % 16) (by omega)
+  have g3 := hm (t3 % 16 + t3 / 16) (t3 / 16 + t4 % 16) (by omega)
+  have g4 := hm (t4 % 16 + t4 / 16) (t4 / 16 + t5 % 16) (by omega)
+  have g5 := hm (t5 % 16 + t5 / 16) (t5 / 16 + t6 % 16) (by omega)
+  have g6 := hm (t6 % 16 + t6 / 16) (t6 / 16 + t7 % 16) (by omega)
+  have g7 := hm (t7 % 16 + t7 / 16) (t7 / 16) (by omega)
+  simp only [List.map, g0, g1, g2, g3, g4, g5, g6, g7]
 
 /-- stage 5: the multiplication accumulates the eight byte counts in the top byte; nothing carries into it -/
 theorem n5_lanes (p0 p1 p2 p3 p4 p5 p6 p7 : Nat)
     (h : p0 ≤ 8 ∧ p1 ≤ 8 ∧ p2 ≤ 8 ∧ p3 ≤ 8 ∧ p4 ≤ 8 ∧ p5 ≤ 8 ∧ p6 ≤ 8 ∧ p7 ≤ 8) :
     n5 (lanes [p0, p1, p2, p3, p4, p5, p6, p7]) = p0 + p1 + p2 + p3 + p4 + p5 + p6 + p7 := by
+  have hq : lanes [p0, p1, p2, p3, p4, p5, p6, p7] * 0x0101010101010101
+      = 2 ^ 64 * (p1 + p2 + p3 + p4 + p5 + p6 + p7 + 256 * (p2 + p3 + p4 + p5 + p6 + p7
+          + 256 * (p3 + p4 + p5 + p6 + p7 + 256 * (p4 + p5 + p6 + p7 + 256 * (p5 + p6 + p7
+          + 256 * (p6 + p7 + 256 * p7))))))
+        + (2 ^ 56 * (p0 + p1 + p2 + p3 + p4 + p5 + p6 + p7)
+          + (p0 + 256 * (p0 + p1 + 256 * (p0 + p1 + p2 + 256 * (p0 + p1 + p2 + p3 + 256 * (p0 + p1 + p2 + p3 + p4
+            + 256 * (p0 + p1 + p2 + p3 + p4 + p5 + 256 * (p0 + p1 + p2 + p3 + p4 + p5 + p6)))))))) := by
+    simp only [lanes]
+    omega
   unfold n5
-  rw [Nat.shiftRight_eq_div_pow]
-  simp only [lanes]
+  rw [hq, Nat.mul_add_mod, Nat.shiftRight_eq_div_pow]
+  clear hq
+  generalize hL : p0 + 256 * (p0 + p1 + 256 * (p0 + p1 + p2 + 256 * (p0 + p1 + p2 + p3 + 256 * (p0 + p1 + p2 + p3 + p4
+            + 256 * (p0 + p1 + p2 + p3 + p4 + p5 + 256 * (p0 + p1 + p2 + p3 + p4 + p5 + p6)))))) = low
+  have h1 : low < 2 ^ 56 := by omega
+  clear hL
+  generalize hT : p0 + p1 + p2 + p3 + p4 + p5 + p6 + p7 = tot
+  have h2 : tot ≤ 64 := by omega
   omega
+
+/-! ### the theorem -/
+
+/-- the five stages compute the number of one bits of every value below `2^64` -/
+theorem swar_nat (n : Nat) (hn : n < 2 ^ 64) : n5 (n4 (n3 (n2 (n1 n)))) = cbN n 64 := by
+  obtain ⟨b0, b1, b2, b3, b4, b5, b6, b7, h, rfl⟩ := exists_bytes n hn
+  have f0 := byte_facts b0 h.1
+  have f1 := byte_facts b1 h.2.1
+  have f2 := byte_facts b2 h.2.2.1
+  have f3 := byte_facts b3 h.2.2.2.1
+  have f4 := byte_facts b4 h.2.2.2.2.1
+  have f5 := byte_facts b5 h.2.2.2.2.2.1
+  have f6 := byte_facts b6 h.2.2.2.2.2.2.1
+  have f7 := byte_facts b7 h.2.2.2.2.2.2.2
+  have g : ∀ b, b < 256 → s2 b % 16 ≤ 4 ∧ s2 b / 16 ≤ 4 := fun b hb => ⟨(byte_facts b hb).2.1, (byte_facts b hb).2.2.1⟩
+  rw [n1_lanes _ _ _ _ _ _ _ _ h, n2_lanes _ _ _ _ _ _ _ _ h,
+    n34_lanes _ _ _ _ _ _ _ _ (g _ h.1) (g _ h.2.1) (g _ h.2.2.1) (g _ h.2.2.2.1) (g _ h.2.2.2.2.1)
+      (g _ h.2.2.2.2.2.1) (g _ h.2.2.2.2.2.2.1) (g _ h.2.2.2.2.2.2.2)]
+  have hpc : cbN (lanes [b0, b1, b2, b3, b4, b5, b6, b7]) 64
+      = cbN b0 8 + (cbN b1 8 + (cbN b2 8 + (cbN b3 8 + (cbN b4 8 + (cbN b5 8 + (cbN b6 8 + (cbN b7 8 + 0))))))) :=
+    cbN_lanes _ (all8 _ _ _ _ _ _ _ _ h)
+  rw [hpc, ← f0.2.2.2, ← f1.2.2.2, ← f2.2.2.2, ← f3.2.2.2, ← f4.2.2.2, ← f5.2.2.2, ← f6.2.2.2, ← f7.2.2.2]
+  show n5 (lanes [pcb b0, pcb b1, pcb b2, pcb b3, pcb b4, pcb b5, pcb b6, pcb b7]) = _
+  have hp : ∀ b, b < 256 → pcb b ≤ 8 := by intro b hb; have := g b hb; unfold pcb; omega
+  rw [n5_lanes _ _ _ _ _ _ _ _ ⟨hp _ h.1, hp _ h.2.1, hp _ h.2.2.1, hp _ h.2.2.2.1, hp _ h.2.2.2.2.1,
+    hp _ h.2.2.2.2.2.1, hp _ h.2.2.2.2.2.2.1, hp _ h.2.2.2.2.2.2.2⟩]
+  omega
+
+/-- **the repository's SWAR routine is the population count**, on every 64-bit word -/
+theorem countSetBits_eq_popcount (x : W) : countSetBits x = Int.ofNat (popcount x) := by
+  rw [countSetBits_eq_nat, swar_nat _ x.isLt]
+  unfold popcount
+  rw [countBits_eq_cbN]
 
 end BS
